@@ -63,6 +63,7 @@ struct Params
   int se[3] = {0, 0, 0};         // side-effect behaviour: 0 log, 1 log+throw, 2 log+nested call, 3 log+nested call v(arg-1) if arg>0, 4 write through int&, 5 destroy object nest_obj
   int nest_obj = -1;     // nested call target (object id), function 'v'
   int nest_arg = 0;
+  int nest_fn = 0;       // function of the conditional recursion: 0 v(arg-1), 1 f(arg-1)
   int dop = -1;          // deferred operation a side effect in mode 6 carries out (once)
   unsigned long lo = 1, hi = 1;  // RT_TIMES
   trompeloeil::sequence* seq[2] = {nullptr, nullptr};
@@ -85,6 +86,7 @@ namespace H
   std::string esc(std::string const& s);
   int sidx(std::string const& s); // index of a string argument in the string domain
   void nested(int obj, int arg);  // implemented by the driver
+  void nestedf(int obj, int arg); // the same through the value-returning function f
   void destroy(int obj);          // implemented by the driver: destroys that object now (from inside a side effect)
   void deferred(int k);           // implemented by the driver: carries out the deferred operation k (release / create an expectation)
 
@@ -105,7 +107,7 @@ namespace H
     emit("C %d S %d %d", p.id, idx, arg);
     if (p.se[idx] == 1) throw SeThrow{p.id, idx};
     if (p.se[idx] == 2) nested(p.nest_obj, p.nest_arg);
-    if (p.se[idx] == 3 && arg > 0) nested(p.nest_obj, arg - 1);   // conditional recursion: terminates because the argument decreases
+    if (p.se[idx] == 3 && arg > 0) { if (p.nest_fn == 1) nestedf(p.nest_obj, arg - 1); else nested(p.nest_obj, arg - 1); }   // conditional recursion: terminates because the argument decreases
     if (p.se[idx] == 6) deferred(p.dop);                // re-entrancy: an expectation is released or created from inside the side effect
     if (p.se[idx] == 5) destroy(p.nest_obj);            // the mock object whose function is executing (or its moved-from husk) dies now
   }
